@@ -197,7 +197,7 @@ fn run(cfg: &RunCfg) -> Report {
             }
         }
         // every instance ID x every form, many times
-        let reps = cfg.pick(500, 20_000);
+        let reps = cfg.pick(1500, 20_000);
         for form in 0..12u8 {
             for iid in 0..32u8 {
                 for _ in 0..reps {
@@ -213,7 +213,7 @@ fn run(cfg: &RunCfg) -> Report {
             }
         }
     }
-    let n = if small { 40 } else { cfg.n(cfg.pick(100_000, 10_000_000)) / ns };
+    let n = if small { 40 } else { cfg.n(cfg.pick(800_000, 10_000_000)) / ns };
     for _ in 0..n {
         let c = CtxCfg::random(&mut rng, true);
         let form = rng.below(12) as u8;
